@@ -121,6 +121,9 @@ descriptorLoop:
 					FunctionDescriptor: descriptor,
 				},
 			}
+			// The first overload that may fit wins. Going on would wrap the arguments
+			// in the type assertions of every further candidate, which can never all hold.
+			break
 		}
 	}
 
